@@ -31,7 +31,7 @@ func init() {
 		ID:    "C17",
 		Title: "Reported error positions point at the offending byte",
 		Decided: "for the capture buffer that tees a non-seekable input beside the buffering json.Decoder, bytes are discarded only up to the decoder's InputOffset (or after EOF), never the decoder's read-ahead (R-C17-window).",
-		NotCovered: "every number the messages print: line, column, width-aware caret, excerpting of long lines; the seekable re-reading path; YAML positions; the numeric value of ParseError.Offset; CRLF/CR handling.",
+		NotCovered: "every number the messages print: the arithmetic of line, column and caret; what is decided about them is structural — which terminators each line counter recognises and that CRLF is never split (R-C17-newlinesib), where the re-read of a seekable input starts (R-C17-seekorigin), that the excerpt is cut at repaired rune boundaries (R-C17-runeboundary) and measured with StringWidth (R-C17-graphemewidth), that the query text reaches the parser unmodified (R-C16-fileverbatim); YAML positions beyond the character-to-byte conversion; the numeric value of ParseError.Offset.",
 	})
 	reg(&Rule{ID: "R-C15-streams", Props: []string{"C15"}, Floor: 8,
 		Doc: "cli.outStream is written only in printValues and the help/version blocks; diagnostics target cli.errStream; no os.Stdout/os.Stderr/fmt.Print*/log/println in cli or gojq",
